@@ -8,7 +8,7 @@ type Options struct {
 	PreemptBound int
 	FaultBound   int
 	// FreeBound bounds non-default choices at forced switches (running thread blocked or finished);
-	// 0 means unlimited (the classic preemption-bounded search). A positive bound makes the search
+	// 0 means unlimited (the classic preemption-bounded search), a negative value allows none. A positive bound makes the search
 	// tractable when many daemon threads are runnable at every blocking point.
 	FreeBound int
 	MaxSteps     int
@@ -116,7 +116,7 @@ func Explore(opt Options, body func(s *S) any, check func(x *Exec)) Stats {
 			case Free:
 				free++
 			}
-			if pre > opt.PreemptBound || flt > opt.FaultBound || (opt.FreeBound > 0 && free > opt.FreeBound) {
+			if pre > opt.PreemptBound || flt > opt.FaultBound || (opt.FreeBound > 0 && free > opt.FreeBound) || (opt.FreeBound < 0 && free > 0) {
 				continue
 			}
 			for alt := 1; alt < pi.N; alt++ {
